@@ -151,6 +151,15 @@ def run_property(pid, tier, run_fn, extra=None):
     except Exception:
         tb = traceback.format_exc()
         err = "internal error\n" + tb
+    canon = {}
+    if ctx._cx is not None:
+        canon["engine"] = {"helpers_inlined": ["%s <- %s" % x for x in ctx._cx.meta.get("inlined", [])][:40],
+                           "accumulators_promoted": ["%s: %s -> %s" % x for x in ctx._cx.meta.get("promoted", [])][:40]}
+    if ctx._py is not None:
+        canon["package"] = {"normalised": {m.name: [list(x) for x in m.norm_log][:40] for m in ctx._py.mods.values()
+                                           if getattr(m, "norm_log", None)},
+                            "helpers_absorbed": list(getattr(ctx._py, "pruned", []))}
+    ctx.analysed["canonicalisation"] = canon
     known0 = {k["key"] for k in load_known().get("known", []) if k.get("property") == pid}
     any_new = any(i.status == "violation" and i.key not in known0 for i in ctx.insts)
     if err is not None and not any_new:
